@@ -27,7 +27,7 @@ LEVEL = META['level']
 RULE = ('a case = one (machine, encoding, tail, limit value, limit form) run; distinct by that tuple; non-trivial = the limit is smaller than encoding+tail or an inner length field was perturbed')
 ASSUMPTIONS = ['the limit is imposed by an enclosing dfa (limit=...) around the machine under test, the way CPF items and CIP command parsers are limited in the library']
 REQUIRED = ['runs', 'outcome:success', 'outcome:nonterminal', 'outcome:limit-assertion', 'form:int', 'form:path', 'form:callable', 'limit:0', 'limit:cuts-element', 'limit:exact', 'limit:beyond',
-            'monitor:conservation', 'monitor:invariant-evaluations', 'monitor:limit-respected', 'inner:shorter', 'inner:longer', 'repeat:exact', 'repeat:under-limit', 'input:chained-blocks', 'machines:distinct>=25']
+            'monitor:conservation', 'monitor:invariant-evaluations', 'monitor:limit-respected', 'inner:shorter', 'inner:longer', 'repeat:exact', 'repeat:under-limit', 'input:chained-blocks', 'limit:nested-zero', 'machines:distinct>=25']
 TIMEOUT = {'quick': 300, 'thorough': 1800}
 SOFT = {'quick': 30, 'thorough': 420}
 
@@ -322,6 +322,10 @@ def _run(ctx):
             if factory not in (None, 'CM') and L > 2:
                 # nested limits: the inner one may only shrink what the outer allows
                 judge(ctx, env, name, factory, enc, tail, L + 1, 'int', inner_limit=max(1, L - 1))
+                # a limit of exactly 0 nested inside an enclosing limit that still has room: nothing may be consumed
+                judge(ctx, env, name, factory, enc, tail, L + 1, rng.choice(['int', 'path', 'callable']), inner_limit=0)
+                judge(ctx, env, name, factory, enc, tail, T, 'int', inner_limit=0, cuts=[1] if T > 2 else None)
+                ctx.count('limit:nested-zero')
                 judge(ctx, env, name, factory, enc, tail, max(1, L - 1), 'callable', inner_limit=L + 5)
             for label, alt, expect in perturbations(name, enc):
                 r = judge(ctx, env, name, factory, alt, tail, None, 'int', perturbed=label)
